@@ -1,41 +1,41 @@
 """A-ARROW: assumed contracts of the pyarrow calls made by fakesnow (pyarrow 25, see DESIGN 3.4).
 
 Abstract view of an (immutable) pyarrow.Table t:
-    tbl_rows(t)  : Seq of row ids            tbl_ncols(t) : Int >= 0
-    tbl_names(t) : Seq of column names (str) row_cells(r) : Seq of the cell values of row r, one per column
+    tbl_nrows(t) : Int >= 0       tbl_row(t, j)  : row id of row j          row_cell(r, c) : value of column c in row r
+    tbl_ncols(t) : Int >= 0       tbl_name(t, c) : name (str) of column c   n_distinct(t)  : number of distinct names
 """
 from __future__ import annotations
 
 import z3
 
-from pyvc.sorts import CLS, I, NONE, S, SeqV, V, mkb, mki, mkr, mks
-from pyvc.state import Val, fresh_name
-from pyvc.types import DictT, ListT, NoneType, Opt, SeqRaw, TupleT
+from pyvc.sorts import CLS, I, NONE, S, V, mkb, mki, mkr, mks
+from pyvc.state import SeqView, Val, fresh_name
+from pyvc.types import DictT, ListT, NoneType, Opt, TupleT
 from pyvc.world import ClassSchema, SpecFun
 
-TBL_ROWS = z3.Function("tbl_rows", I, SeqV)
+TBL_NROWS = z3.Function("tbl_nrows", I, I)
+TBL_ROW = z3.Function("tbl_row", I, I, V)
 TBL_NCOLS = z3.Function("tbl_ncols", I, I)
-TBL_NAMES = z3.Function("tbl_names", I, SeqV)
-ROW_CELLS = z3.Function("row_cells", V, SeqV)
-NDISTINCT = z3.Function("n_distinct_names", SeqV, I)
+TBL_NAME = z3.Function("tbl_name", I, I, V)
+ROW_CELL = z3.Function("row_cell", V, I, V)
+NDISTINCT = z3.Function("n_distinct_names", I, I)
+COL_TBL = z3.Function("col_tbl", I, I)  # a column object (ChunkedArray) obtained from Table.columns: its table ...
+COL_IDX = z3.Function("col_idx", I, I)  # ... and its position
 
 
-def names_distinct(names):
+def names_distinct(t):
     a, b = z3.Ints("nd_a nd_b")
-    return z3.ForAll([a, b], z3.Implies(z3.And(0 <= a, a < b, b < z3.Length(names)), names[a] != names[b]))
+    return z3.ForAll([a, b], z3.Implies(z3.And(0 <= a, a < b, b < TBL_NCOLS(t)), TBL_NAME(t, a) != TBL_NAME(t, b)))
 
 
 def wf_table(t):
     """well-formedness facts of every table (assumed whenever a table is touched)"""
-    j = z3.Int("wf_j")
-    rows = TBL_ROWS(t)
     return z3.And(
         TBL_NCOLS(t) >= 0,
-        z3.Length(TBL_NAMES(t)) == TBL_NCOLS(t),
-        z3.ForAll([j], z3.Implies(z3.And(j >= 0, j < z3.Length(rows)), z3.Length(ROW_CELLS(rows[j])) == TBL_NCOLS(t))),
-        NDISTINCT(TBL_NAMES(t)) <= TBL_NCOLS(t),
-        NDISTINCT(TBL_NAMES(t)) >= z3.If(TBL_NCOLS(t) > 0, 1, 0),
-        (NDISTINCT(TBL_NAMES(t)) == TBL_NCOLS(t)) == names_distinct(TBL_NAMES(t)),
+        TBL_NROWS(t) >= 0,
+        NDISTINCT(t) <= TBL_NCOLS(t),
+        NDISTINCT(t) >= z3.If(TBL_NCOLS(t) > 0, 1, 0),
+        (NDISTINCT(t) == TBL_NCOLS(t)) == names_distinct(t),
     )
 
 
@@ -45,7 +45,7 @@ def install(w):
     A = "A-ARROW (pyarrow.Table.slice/to_pylist/num_rows/num_columns as documented; to_pylist builds one dict per row by inserting (name, value) in column order)"
 
     def table_truthy(ex, st, oid):
-        return z3.Length(TBL_ROWS(oid)) > 0
+        return TBL_NROWS(oid) > 0
 
     w.schemas[pa.Table] = ClassSchema(pa.Table, fields={}, truthy=table_truthy)
 
@@ -61,7 +61,7 @@ def install(w):
         ex.trusted_used.add(A)
         oid = V.rid(obj.t)
         st.assume(wf_table(oid))
-        return Val(mki(z3.Length(TBL_ROWS(oid))), int)
+        return Val(mki(TBL_NROWS(oid)), int)
 
     @attr("num_columns")
     def _num_cols(ex, st, obj, node):
@@ -78,91 +78,107 @@ def install(w):
         oid = ex.as_ref(st, t, node)
         st.assume(wf_table(oid))
         o = ex.as_int(st, off, node)
-        # pyarrow raises on negative offset; fakesnow never passes one: safety obligation
+        # pyarrow raises on a negative offset; fakesnow must never pass one: safety obligation
         ex.oblige(st, o >= 0, f"safe.slice.offset@{node.lineno}", "safe", node, "Table.slice offset >= 0")
         st.assume(o >= 0)
-        rows = TBL_ROWS(oid)
-        n = z3.Length(rows)
+        n = TBL_NROWS(oid)
         res = ex.new_object(st, pa.Table)
         rid = V.rid(res.t)
+        avail = z3.If(n - o < 0, z3.IntVal(0), n - o)
         if ln.ty is NoneType:
-            cnt = z3.If(n - o < 0, z3.IntVal(0), n - o)
+            cnt = avail
         else:
             l_ = ex.as_int(st, ln, node)
             ex.oblige(st, l_ >= 0, f"safe.slice.length@{node.lineno}", "safe", node, "Table.slice length >= 0")
             st.assume(l_ >= 0)
-            avail = z3.If(n - o < 0, z3.IntVal(0), n - o)
             cnt = z3.If(l_ < avail, l_, avail)
-        start = z3.If(o > n, n, o)
-        st.assume(TBL_ROWS(rid) == z3.Extract(rows, start, cnt))
+        j, c = z3.Ints(fresh_name("slj") + " " + fresh_name("slc"))
+        st.assume(TBL_NROWS(rid) == cnt)
+        st.assume(z3.ForAll([j], z3.Implies(z3.And(j >= 0, j < cnt), TBL_ROW(rid, j) == TBL_ROW(oid, o + j))))
         st.assume(TBL_NCOLS(rid) == TBL_NCOLS(oid))
-        st.assume(TBL_NAMES(rid) == TBL_NAMES(oid))
-        st.assume(wf_table(rid))
+        st.assume(z3.ForAll([c], TBL_NAME(rid, c) == TBL_NAME(oid, c)))
+        st.assume(NDISTINCT(rid) == NDISTINCT(oid))
+        st.assume(names_distinct(rid) == names_distinct(oid))
         return res
 
     w.handlers["pyarrow.lib.Table.slice"] = slice_
 
     def to_pylist(ex, st, args, kw, node):
         """list of fresh dicts; dict j has the distinct names as keys (first-occurrence order) and, when all names
-        are distinct, maps names[c] to cell c of row j"""
+        are distinct, maps name c to cell c of row j"""
         ex.trusted_used.add(A)
         t = args[0]
         oid = ex.as_ref(st, t, node)
         st.assume(wf_table(oid))
-        rows = TBL_ROWS(oid)
-        names = TBL_NAMES(oid)
-        n = z3.Length(rows)
+        n = TBL_NROWS(oid)
         pre_alloc = ex.alloc_term(st)
-        L = ex.new_seq(st, list, ex.fresh("pylist", SeqV), elem=DictT(str, None))
-        Ls = st.arr("$seq")[V.rid(L.t)]
-        st.assume(z3.Length(Ls) == n)
         did = z3.Function(fresh_name("pydict"), I, I)
         j, c, o = z3.Ints(fresh_name("tj") + " " + fresh_name("tc") + " " + fresh_name("to"))
+        L = ex.new_seq(st, list, n, z3.Lambda([j], mkr(did(j))), elem=DictT(str, None))
         a1 = ex.alloc_term(st)
         ex.bump_alloc(st)
         a2 = ex.alloc_term(st)
         rng = z3.And(j >= 0, j < n)
         j2 = z3.Int(fresh_name("tj2"))
-        st.assume(z3.ForAll([j], z3.Implies(rng, z3.And(Ls[j] == mkr(did(j)), did(j) >= a1, did(j) < a2, CLS(did(j)) == w.classes.cid(dict)))))
+        st.assume(z3.ForAll([j], z3.Implies(rng, z3.And(did(j) >= a1, did(j) < a2, CLS(did(j)) == w.classes.cid(dict)))))
         st.assume(z3.ForAll([j, j2], z3.Implies(z3.And(rng, j2 >= 0, j2 < n, j != j2), did(j) != did(j2))))
-        # new heap arrays for dict contents: old objects unchanged
-        for nm in ("$dkeys", "$dmap", "$dhas"):
+        for nm in ("$klen", "$kel", "$dmap", "$dhas"):
             old = st.arr(nm)
             new = ex.fresh(f"H_{nm}", old.sort())
-            st.assume(z3.ForAll([o], z3.Implies(o < pre_alloc, new[o] == old[o])))
-            st.assume(new[V.rid(L.t)] == old[V.rid(L.t)])
+            st.assume(z3.ForAll([o], z3.Implies(o < a1, new[o] == old[o])))
             st.heap[nm] = new
-        dk, dm, dh = st.heap["$dkeys"], st.heap["$dmap"], st.heap["$dhas"]
-        st.assume(z3.ForAll([j], z3.Implies(rng, z3.Length(dk[did(j)]) == NDISTINCT(names))))
+        kl, ke, dm, dh = st.heap["$klen"], st.heap["$kel"], st.heap["$dmap"], st.heap["$dhas"]
+        st.assume(z3.ForAll([j], z3.Implies(rng, kl[did(j)] == NDISTINCT(oid))))
         st.assume(
             z3.Implies(
-                names_distinct(names),
+                names_distinct(oid),
                 z3.ForAll(
-                    [j],
+                    [j, c],
                     z3.Implies(
-                        rng,
+                        z3.And(rng, c >= 0, c < TBL_NCOLS(oid)),
                         z3.And(
-                            dk[did(j)] == names,
-                            z3.ForAll(
-                                [c],
-                                z3.Implies(
-                                    z3.And(c >= 0, c < z3.Length(names)),
-                                    z3.And(dm[did(j)][names[c]] == ROW_CELLS(rows[j])[c], dh[did(j)][names[c]]),
-                                ),
-                            ),
+                            ke[did(j)][c] == TBL_NAME(oid, c),
+                            dm[did(j)][TBL_NAME(oid, c)] == ROW_CELL(TBL_ROW(oid, j), c),
+                            dh[did(j)][TBL_NAME(oid, c)],
                         ),
                     ),
                 ),
             )
         )
-        L.parts = None
         return L
 
     w.handlers["pyarrow.lib.Table.to_pylist"] = to_pylist
 
+    @attr("columns")
+    def _columns(ex, st, obj, node):
+        """fresh list of ncols column objects; column c knows (table, c)"""
+        ex.trusted_used.add(A)
+        oid = V.rid(obj.t)
+        st.assume(wf_table(oid))
+        n = TBL_NCOLS(oid)
+        cid = z3.Function(fresh_name("colobj"), I, I)
+        c, c2 = z3.Ints(fresh_name("cc") + " " + fresh_name("cc2"))
+        a1 = ex.alloc_term(st)
+        ex.bump_alloc(st)
+        a2 = ex.alloc_term(st)
+        rng = z3.And(c >= 0, c < n)
+        st.assume(z3.ForAll([c], z3.Implies(rng, z3.And(cid(c) >= a1, cid(c) < a2, CLS(cid(c)) == w.classes.cid(pa.ChunkedArray), COL_TBL(cid(c)) == oid, COL_IDX(cid(c)) == c))))
+        st.assume(z3.ForAll([c, c2], z3.Implies(z3.And(rng, c2 >= 0, c2 < n, c != c2), cid(c) != cid(c2))))
+        return ex.new_seq(st, list, n, z3.Lambda([c], mkr(cid(c))), elem=pa.ChunkedArray)
+
+    def col_to_pylist(ex, st, args, kw, node):
+        """fresh list of the column's values, one per row, in row order"""
+        ex.trusted_used.add(A)
+        oid = ex.as_ref(st, args[0], node)
+        t = COL_TBL(oid)
+        i = z3.Int(fresh_name("ci"))
+        return ex.new_seq(st, list, TBL_NROWS(t), z3.Lambda([i], ROW_CELL(TBL_ROW(t, i), COL_IDX(oid))), elem=None)
+
+    w.handlers["pyarrow.lib.ChunkedArray.to_pylist"] = col_to_pylist
+
     def table_len(ex, st, args, kw, node):
         oid = ex.as_ref(st, args[0], node)
-        return Val(mki(z3.Length(TBL_ROWS(oid))), int)
+        return Val(mki(TBL_NROWS(oid)), int)
 
     w.handlers["pyarrow.lib.Table.__len__"] = table_len
 
@@ -176,43 +192,51 @@ def install(w):
 
     @sf("nrows")
     def _nrows(ex, st, args):
-        return Val(mki(z3.Length(TBL_ROWS(V.rid(args[0].t)))), int)
+        return Val(mki(TBL_NROWS(V.rid(args[0].t))), int)
 
     @sf("ncols")
     def _ncols(ex, st, args):
         return Val(mki(TBL_NCOLS(V.rid(args[0].t))), int)
 
-    @sf("rows")
-    def _rows(ex, st, args):
-        return Val(TBL_ROWS(V.rid(args[0].t)), SeqRaw(None))
+    @sf("row")
+    def _row(ex, st, args):
+        return Val(TBL_ROW(V.rid(args[0].t), ex.as_int(st, args[1])), None)
 
-    @sf("names")
-    def _names(ex, st, args):
-        return Val(TBL_NAMES(V.rid(args[0].t)), SeqRaw(str))
+    @sf("colname")
+    def _colname(ex, st, args):
+        return Val(TBL_NAME(V.rid(args[0].t), ex.as_int(st, args[1])), None)
 
-    @sf("cells")
-    def _cells(ex, st, args):
-        return Val(ROW_CELLS(args[0].t), SeqRaw(None))
+    @sf("cell")
+    def _cell(ex, st, args):
+        return Val(ROW_CELL(args[0].t, ex.as_int(st, args[1])), None)
 
     @sf("distinct_names")
     def _distinct(ex, st, args):
-        return Val(mkb(names_distinct(TBL_NAMES(V.rid(args[0].t)))), bool)
+        return Val(mkb(names_distinct(V.rid(args[0].t))), bool)
 
     @sf("wf_table")
     def _wf(ex, st, args):
         return Val(mkb(z3.Or(V.is_none(args[0].t), wf_table(V.rid(args[0].t)))), bool)
 
-    @sf("seq")
-    def _seq(ex, st, args):
-        return Val(st.arr("$seq")[V.rid(args[0].t)], SeqRaw(None))
+    @sf("dict_len")
+    def _dict_len(ex, st, args):
+        return Val(mki(st.arr("$klen")[V.rid(args[0].t)]), int)
 
-    @sf("dict_keys")
-    def _dict_keys(ex, st, args):
-        return Val(st.arr("$dkeys")[V.rid(args[0].t)], SeqRaw(None))
+    @sf("dict_key")
+    def _dict_key(ex, st, args):
+        return Val(st.arr("$kel")[V.rid(args[0].t)][ex.as_int(st, args[1])], None)
 
     @sf("dict_at")
     def _dict_at(ex, st, args):
         return Val(st.arr("$dmap")[V.rid(args[0].t)][args[1].t], None)
+
+    @sf("seq_len")
+    def _seq_len(ex, st, args):
+        return Val(mki(st.arr("$len")[V.rid(args[0].t)]), int)
+
+    @sf("seq_at")
+    def _seq_at(ex, st, args):
+        return Val(st.arr("$el")[V.rid(args[0].t)][ex.as_int(st, args[1])], None)
 
     @sf("is_tuple")
     def _is_tuple(ex, st, args):
